@@ -52,22 +52,67 @@ func rangeLoops(fn *ssa.Function, pred func(ssa.Value) bool) []rangeLoop {
 		if !ok || bi.Name() != "len" {
 			continue
 		}
-		inc, ok := cmp.X.(*ssa.BinOp)
-		if !ok || inc.Op != token.ADD {
-			continue
-		}
-		if _, ok := inc.X.(*ssa.Phi); !ok {
-			continue
-		}
 		// loop header: reachable from its own body
 		if !reachableFrom([]*ssa.BasicBlock{b.Succs[0]}, nil)[b] {
 			continue
+		}
+		if ph, isPhi := cmp.X.(*ssa.Phi); isPhi {
+			// a hand-written `for i := 0; i < len(X); i++` over a slice taken before the loop is the
+			// same iteration as `range X` (the slice header is read once in both)
+			if !isCountingPhi(ph) || !loopInvariant(lc.Call.Args[0], b) {
+				continue
+			}
+			if _, isSlice := lc.Call.Args[0].Type().Underlying().(*types.Slice); !isSlice {
+				continue
+			}
+		} else {
+			inc, ok := cmp.X.(*ssa.BinOp)
+			if !ok || inc.Op != token.ADD {
+				continue
+			}
+			if _, ok := inc.X.(*ssa.Phi); !ok {
+				continue
+			}
 		}
 		if pred(lc.Call.Args[0]) {
 			out = append(out, rangeLoop{b, b.Succs[0], b.Succs[1], lc.Call.Args[0]})
 		}
 	}
 	return out
+}
+
+// isCountingPhi: i = phi(0, i + 1)
+func isCountingPhi(phi *ssa.Phi) bool {
+	if len(phi.Edges) != 2 {
+		return false
+	}
+	zero, step := false, false
+	for _, e := range phi.Edges {
+		if k, ok := constInt(e); ok && k == 0 {
+			zero = true
+			continue
+		}
+		if bo, ok := e.(*ssa.BinOp); ok && bo.Op == token.ADD && bo.X == ssa.Value(phi) {
+			if k, ok := constInt(bo.Y); ok && k == 1 {
+				step = true
+			}
+		}
+	}
+	return zero && step
+}
+
+// loopInvariant: v is computed before the loop headed by header (a parameter, a constant, or an
+// instruction of a block outside the loop).
+func loopInvariant(v ssa.Value, header *ssa.BasicBlock) bool {
+	in, ok := v.(ssa.Instruction)
+	if !ok {
+		return true
+	}
+	if in.Block() == header {
+		return false
+	}
+	inLoop := reachableFrom([]*ssa.BasicBlock{header.Succs[0]}, nil)
+	return !(inLoop[in.Block()] && reachableFrom([]*ssa.BasicBlock{in.Block()}, nil)[header])
 }
 
 func runC19(c *Ctx) {
